@@ -27,6 +27,14 @@ structure Occ where
   /-- for declarations: the part of the declaring statement that precedes the variable's scope
       (local statement: the whole statement; for loops: the header up to the body) -/
   region : Loc := ⟨0, 0, 0, 0⟩
+  /-- for uses: the names of the locals visible at this occurrence (innermost first) -/
+  vis : List Bytes := []
+  /-- for declarations by `local` and for assignment targets: a description of the i-th right-hand
+      expression: "" none, "func", "name:<n>" (a possibly parenthesised bare name), "member:<base>",
+      "or:<n>" (`n or …`), "other" -/
+  init : String := ""
+  /-- for declarations: L local statement, P parameter, F loop variable, N local function -/
+  dk : String := ""
 deriving Repr, DecidableEq, Inhabited
 
 abbrev Env := List (Bytes × Loc)   -- innermost first
@@ -34,12 +42,34 @@ abbrev Env := List (Bytes × Loc)   -- innermost first
 def lookup (env : Env) (n : Bytes) : Option Loc := (env.find? (·.1 == n)).map (·.2)
 
 def use (env : Env) (n : Bytes) (l : Loc) (w : Bool := false) : Occ :=
-  { name := n, loc := l, decl := lookup env n, isWrite := w }
+  { name := n, loc := l, decl := lookup env n, isWrite := w, vis := env.map (·.1) }
 
-def declOcc (n : Bytes) (l : Loc) (region : Loc := ⟨0, 0, 0, 0⟩) : Occ :=
-  { name := n, loc := l, decl := some l, isDecl := true, region := region }
+def declOcc (n : Bytes) (l : Loc) (region : Loc := ⟨0, 0, 0, 0⟩) (dk : String := "L") : Occ :=
+  { name := n, loc := l, decl := some l, isDecl := true, region := region, dk := dk }
 
 def blockLoc : Block → Loc | .mk _ _ l => l
+
+def nameStr (n : Bytes) : String := String.ofList (n.map fun b => Char.ofNat b.toNat)
+
+/-- shape of an initialiser, as far as the documented exemptions / idioms look at it -/
+def initDesc : Exp → String
+  | .func _ => "func"
+  | .name n _ => "name:" ++ nameStr n
+  | .parens (.name n _) _ => "name:" ++ nameStr n
+  | .index (.name n _) _ _ => "member:" ++ nameStr n
+  | .binop .or (.name n _) _ _ => "or:" ++ nameStr n
+  | _ => "other"
+
+def initAt (exps : List Exp) (i : Nat) : String :=
+  match exps[i]? with
+  | some e => initDesc e
+  | none => ""
+
+/-- the declaration occurrences of `local n1, n2, … = e1, e2, …` (name i paired with expression i) -/
+def localDecls (sl : Loc) : List (Bytes × Loc × Nat) → List Exp → List Occ
+  | [], _ => []
+  | (n, l, _) :: ns, [] => declOcc n l sl :: localDecls sl ns []
+  | (n, l, _) :: ns, e :: es => { declOcc n l sl with init := initDesc e } :: localDecls sl ns es
 
 def pushParams (env : Env) : List (Bytes × Loc) → Env
   | [] => env
@@ -65,7 +95,7 @@ def bExps (tr : Bool) (env : Env) : List Exp → List Occ
   | e :: r => bExp tr env e ++ bExps tr env r
 def bFunc (tr : Bool) (env : Env) : FuncBody → List Occ
   | .mk _ _ ps _ _ body _ =>
-    ps.map (fun (n, l) => declOcc n l) ++ (bBlock tr (pushParams env ps) body).1
+    ps.map (fun (n, l) => declOcc n l ⟨0, 0, 0, 0⟩ "P") ++ (bBlock tr (pushParams env ps) body).1
 /-- occurrences of a block and the environment at its end (needed by repeat-until) -/
 def bBlock (tr : Bool) (env : Env) : Block → List Occ × Env
   | .mk stats ret _ =>
@@ -84,10 +114,10 @@ def bBlocks (tr : Bool) (env : Env) : List Block → List Occ
   | [] => []
   | b :: bs => (bBlock tr env b).1 ++ bBlocks tr env bs
 /-- assignment targets: a bare name is a write occurrence, anything else is traversed as an expression -/
-def bTargets (tr : Bool) (env : Env) : List Exp → List Occ
+def bTargets (tr : Bool) (env : Env) (exps : List Exp) (i : Nat) : List Exp → List Occ
   | [] => []
-  | .name n l :: r => use env n l true :: bTargets tr env r
-  | v :: r => bExp tr env v ++ bTargets tr env r
+  | .name n l :: r => { use env n l true with init := initAt exps i } :: bTargets tr env exps (i + 1) r
+  | v :: r => bExp tr env v ++ bTargets tr env exps (i + 1) r
 /-- LuaHelper's traversal of `local n1, n2, … = e1, e2, …`: name i is inserted right after e_i -/
 def bLocalTr (tr : Bool) (sl : Loc) (env : Env) : List (Bytes × Loc × Nat) → List Exp → List Occ × Env
   | ns, [] => (ns.map (fun (n, l, _) => declOcc n l sl), pushNames env ns)
@@ -96,7 +126,7 @@ def bLocalTr (tr : Bool) (sl : Loc) (env : Env) : List (Bytes × Loc × Nat) →
     (bExp tr env e ++ o, env')
   | (n, l, k) :: ns, e :: es =>
     let (o, env') := bLocalTr tr sl ((n, l) :: env) ns es
-    (bExp tr env e ++ [declOcc n l sl] ++ o, env')
+    (bExp tr env e ++ [{ declOcc n l sl with init := initDesc e }] ++ o, env')
 def bStat (tr : Bool) (env : Env) : Stat → List Occ × Env
   | .do_ b _ => ((bBlock tr env b).1, env)
   | .while_ c b _ => (bExp tr env c ++ (bBlock tr env b).1, env)
@@ -104,15 +134,15 @@ def bStat (tr : Bool) (env : Env) : Stat → List Occ × Env
   | .if_ cs bs _ => (bExps tr env cs ++ bBlocks tr env bs, env)
   | .fornum v vl i lim st b _ =>
     (bExp tr env i ++ bExp tr env lim ++ bExp tr env st ++
-      [declOcc v vl ⟨vl.sl, vl.sc, (blockLoc b).sl, (blockLoc b).sc⟩] ++ (bBlock tr ((v, vl) :: env) b).1, env)
+      [declOcc v vl ⟨vl.sl, vl.sc, (blockLoc b).sl, (blockLoc b).sc⟩ "F"] ++ (bBlock tr ((v, vl) :: env) b).1, env)
   | .forin ns es b _ =>
-    (bExps tr env es ++ ns.map (fun (n, l) => declOcc n l ⟨l.sl, l.sc, (blockLoc b).sl, (blockLoc b).sc⟩) ++
+    (bExps tr env es ++ ns.map (fun (n, l) => declOcc n l ⟨l.sl, l.sc, (blockLoc b).sl, (blockLoc b).sc⟩ "F") ++
       (bBlock tr (pushParams env ns) b).1, env)
-  | .assign vars exps _ => (bExps tr env exps ++ bTargets tr env vars, env)
+  | .assign vars exps _ => (bExps tr env exps ++ bTargets tr env exps 0 vars, env)
   | .local_ names exps sl =>
     if tr then bLocalTr tr sl env names exps
-    else (bExps tr env exps ++ names.map (fun (n, l, _) => declOcc n l sl), pushNames env names)
-  | .localfn n nl f _ => ([declOcc n nl] ++ bFunc tr ((n, nl) :: env) f, (n, nl) :: env)
+    else (bExps tr env exps ++ localDecls sl names exps, pushNames env names)
+  | .localfn n nl f _ => ([declOcc n nl ⟨0, 0, 0, 0⟩ "N"] ++ bFunc tr ((n, nl) :: env) f, (n, nl) :: env)
   | .callstat e => (bExp tr env e, env)
   | _ => ([], env)
 end
